@@ -108,6 +108,7 @@ type VC struct {
 	epochCtr int
 	strlits  map[string]Term
 	refKeys  map[string]bool
+	keyInt   map[string]types.Type
 	fpMode   bool
 	abstracted []string
 	opaqueCalls int
@@ -359,6 +360,16 @@ func (vc *VC) epochBase(ep *Epoch, key string) Term {
 		if !vc.declared[n] {
 			vc.declared[n] = true
 			vc.emit(fmt.Sprintf("(declare-const %s %s)", n, ki.sort))
+			if it, ok := vc.keyInt[key]; ok {
+				switch ki.sort {
+				case "Int":
+					vc.emit(fmt.Sprintf("(assert %s)", rangeFact(it, n)))
+				case "(Array Int Int)":
+					vc.emit(fmt.Sprintf("(assert (forall ((x Int)) (! %s :pattern ((select %s x)))))", rangeFact(it, fmt.Sprintf("(select %s x)", n)), n))
+				case "(Array Int (Array Int Int))":
+					vc.emit(fmt.Sprintf("(assert (forall ((x Int) (y Int)) (! %s :pattern ((select (select %s x) y)))))", rangeFact(it, fmt.Sprintf("(select (select %s x) y)", n)), n))
+				}
+			}
 			if vc.refKeys[key] && ep.allocAt != "" {
 				switch ki.sort {
 				case "Int":
@@ -385,6 +396,15 @@ func (vc *VC) epochBase(ep *Epoch, key string) Term {
 func (vc *VC) newEpoch() *Epoch {
 	vc.epochCtr++
 	return &Epoch{id: vc.epochCtr}
+}
+
+func (vc *VC) markInt(key string, t types.Type) {
+	if bits, signed, ok := intInfo(t); ok && !(bits == 64 && signed) && vc.eng.sortOf(t) == "Int" {
+		if vc.keyInt == nil {
+			vc.keyInt = map[string]types.Type{}
+		}
+		vc.keyInt[key] = t
+	}
 }
 
 func (vc *VC) markRef(key string) {
@@ -482,6 +502,7 @@ func (vc *VC) load(st *State, a adv) Sym {
 		if refLike(t) {
 			vc.markRef(a.base)
 		}
+		vc.markInt(a.base, t)
 		return sv{vc.loadScalar(st, a.base, a.idx, s)}
 	}
 	switch u := t.Underlying().(type) {
@@ -511,6 +532,7 @@ func (vc *VC) store(st *State, a adv, v Sym) {
 		if refLike(t) {
 			vc.markRef(a.base)
 		}
+		vc.markInt(a.base, t)
 		vc.storeScalar(st, a.base, a.idx, s, vc.scalar(v))
 		return
 	}
